@@ -11,6 +11,8 @@
   pypyr/cache/loadercache.py  Loader.get_pipeline (cache key), Loader._load_pipeline (wrapping
                               of a bare mapping), LoaderCache.get_pype_loader (default loader)
   pypyr/config.py             Config.__init__: default_loader, pipelines_subdir
+  pypyr/moduleloader.py       add_sys_path (_known_dirs test, exists test, the sys.path membership
+                              test, append, bookkeeping); `with _sys_path_lock:` is transparent
 
 Proofs/GenC19Proofs.v proves every generated definition equal to the hand-written model of
 Model/Loader.v, so an edit to that source re-checks, or breaks, those lemmas.
@@ -243,6 +245,16 @@ class Tr:
             else:
                 raise Untranslatable(f'== between {ta} and {tb}')
             return (t if isinstance(e.ops[0], ast.Eq) else f'(negb {t})'), BOOL
+        if isinstance(e, ast.Compare) and len(e.ops) == 1 and isinstance(e.ops[0], (ast.In, ast.NotIn)):
+            x, tx = self.expr(e.left, env)
+            coll = ast.unparse(e.comparators[0])
+            if coll == '_known_dirs' and tx == PARENT and '$known' in env:
+                t = f'(existsb (pp_eqb {x}) {env["$known"]})'
+            elif coll == 'sys.path' and tx in (STR, PATH) and '$sp' in env:
+                t = f'(str_in {x} {env["$sp"]})'
+            else:
+                raise Untranslatable(f'membership test in {coll}')
+            return (t if isinstance(e.ops[0], ast.In) else f'(negb {t})'), BOOL
         if isinstance(e, ast.IfExp):
             # `x if isinstance(x, Path) else Path(x)` narrows a parent to its two classes
             tst = e.test
@@ -385,6 +397,8 @@ class Tr:
         """mode: 'res' (function returns a value or raises -> res T) | 'eff' (returns (st, value))"""
         stmts = [s for s in stmts if not skip(s)]
         if not stmts:
+            if k is None and mode == 'sys':
+                return self.sys_state(env)
             if k is None:
                 raise Untranslatable('control reaches the end of the function')
             return k(env)
@@ -393,6 +407,10 @@ class Tr:
         def cont(env2):
             return self.block(rest, env2, mode, k)
 
+        if mode == 'sys':
+            r = self.sys_stmt(st, rest, env, k)
+            if r is not None:
+                return r
         if isinstance(st, ast.Return):
             if st.value is None:
                 raise Untranslatable('bare return')
@@ -450,6 +468,33 @@ class Tr:
                 env2 = dict(env, **{'$st': (s, ST)})
                 return f'(let {s} := prim_add_sys_path {s} {self.coerce(x, tx, PARENT)} in {cont(env2)})'
         raise Untranslatable(f'statement {type(st).__name__}: {ast.unparse(st)[:70]}')
+
+    # add_sys_path: state = (_known_dirs, sys.path), both ordinary (shadowed) let-bound names
+    def sys_state(self, env):
+        return f'{{| known := {env["$known"]}; syspath := {env["$sp"]} |}}'
+
+    def sys_stmt(self, st, rest, env, k):
+        def cont(env2):
+            return self.block(rest, env2, 'sys', k)
+        if isinstance(st, ast.Return) and st.value is None:
+            return self.sys_state(env)
+        if isinstance(st, ast.With) and len(st.items) == 1 and st.items[0].optional_vars is None \
+                and ast.unparse(st.items[0].context_expr) == '_sys_path_lock':
+            return self.block(st.body + rest, env, 'sys', k)
+        if isinstance(st, ast.Expr) and isinstance(st.value, ast.Call) and len(st.value.args) == 1 \
+                and not st.value.keywords:
+            fn = ast.unparse(st.value.func)
+            if fn == '_known_dirs.add':
+                x, tx = self.expr(st.value.args[0], env)
+                if tx != PARENT:
+                    raise Untranslatable('_known_dirs.add of a non-parent')
+                return f'(let kn := ({x} :: {env["$known"]}) in {cont(dict(env, **{"$known": "kn"}))})'
+            if fn == 'sys.path.append':
+                x, tx = self.expr(st.value.args[0], env)
+                if tx not in (STR, PATH):
+                    raise Untranslatable('sys.path.append of a non-string')
+                return f'(let sp := ({env["$sp"]} ++ [{x}])%list in {cont(dict(env, **{"$sp": "sp"}))})'
+        return None
 
     def call_args(self, call, argtys, env):
         if call.keywords and call.args:
@@ -964,6 +1009,17 @@ def unit_loadercache():
     return out
 
 
+def unit_moduleloader():
+    tree, modname = parse('pypyr/moduleloader.py')
+    tr = Tr(modname, tree)
+    fn = find(tree, 'add_sys_path')
+    if [a.arg for a in fn.args.args] != ['path']:
+        raise Untranslatable('add_sys_path signature')
+    env = {'path': ('path', PARENT), '$known': '(known st)', '$sp': '(syspath st)'}
+    body = tr.block(fn.body, env, 'sys')
+    return ['Definition gen_add_sys_path (st : sysst) (path : pyparent) : sysst :=\n  ' + body + '.']
+
+
 PRELUDE = '''(** Gen/GenC19.v — GENERATED by tools/py2coq_c19.py from the current source under the repository;
     do not edit.  A definition that could not be translated gets the suffix _UNTRANSLATED, which
     breaks every lemma of Proofs/GenC19Proofs.v that mentions the expected name. *)
@@ -991,7 +1047,8 @@ Variable prim_samefile : string -> string -> bool.
 Variable prim_add_sys_path : sysst -> pyparent -> sysst.
 '''
 
-UNITS = [('pypyr/config.py', unit_config, ['gen_config_default_loader', 'gen_config_pipelines_subdir']),
+UNITS = [('pypyr/moduleloader.py', unit_moduleloader, ['gen_add_sys_path']),
+         ('pypyr/config.py', unit_config, ['gen_config_default_loader', 'gen_config_pipelines_subdir']),
          ('pypyr/pipedef.py', unit_pipedef, ['gen_PipelineInfo', 'gen_PipelineFileInfo']),
          ('pypyr/loaders/file.py', unit_file, ['gen_find_pipeline', 'gen_get_pipeline_path',
                                                'gen_load_pipeline_from_file', 'gen_get_pipeline_definition']),
